@@ -37,6 +37,8 @@ package jsonline
 import (
 	"fmt"
 	"io"
+
+	"github.com/cgi-fr/jsonline/pkg/cast"
 )
 
 type Template interface {
@@ -202,6 +204,10 @@ func (t *template) CreateRow(v interface{}) (Row, error) {
 		for i, val := range values {
 			target, ok := result.GetValueAtIndex(i)
 			if ok && target != nil {
+				if _, err := cast.To(target.GetRawType(), val); err != nil {
+					return nil, fmt.Errorf("%w", err)
+				}
+
 				target = NewValue(val, target.GetFormat(), target.GetRawType())
 			} else {
 				target = NewValueAuto(val)
@@ -213,6 +219,10 @@ func (t *template) CreateRow(v interface{}) (Row, error) {
 		for key, val := range values {
 			target, ok := result.GetValue(key)
 			if ok && target != nil {
+				if _, err := cast.To(target.GetRawType(), val); err != nil {
+					return nil, fmt.Errorf("%w", err)
+				}
+
 				target = NewValue(val, target.GetFormat(), target.GetRawType())
 			} else {
 				target = NewValueAuto(val)
@@ -226,6 +236,10 @@ func (t *template) CreateRow(v interface{}) (Row, error) {
 		for key, val, ok := iter(); ok; key, val, ok = iter() {
 			target, ok := result.GetValue(key)
 			if ok && target != nil {
+				if _, err := cast.To(target.GetRawType(), val.Raw()); err != nil {
+					return nil, fmt.Errorf("%w", err)
+				}
+
 				target = NewValue(val.Raw(), target.GetFormat(), target.GetRawType())
 			} else {
 				target = NewValueAuto(val.Raw())
